@@ -141,12 +141,12 @@ func (c *c10ctx) verifyTree(what string, bt *btree.T, m *omap, touched []string,
 			if leaf {
 				kind = "leaf"
 			}
-			if size > limit && leaf && c.halfKnown && !c.bulk {
+			if size > limit && c.halfKnown && !c.bulk {
 				// MergeAndSave writes leaves through write (checked) and splitTo
 				// (unchecked): an oversize leaf of a merged tree is a split half
 				c.rec.Excluded("split-half-over-node-size")
 				c.rec.Known(c.halfWhat)
-				c.rec.Label("oversize_split_half_keys_" + bucket(nkeys, 3, 10, 50))
+				c.rec.Label("oversize_split_half_" + strings.ReplaceAll(kind, " ", "_") + "_keys_" + bucket(nkeys, 3, 10, 50))
 			} else if size > limit {
 				t.Fatalf("%s: %s on level %d has %d bytes, the node size limit is %d (%d keys, stored prefix %d bytes)", what, kind, level, size, limit, nkeys, prefixLen)
 			}
@@ -551,6 +551,9 @@ func TestC10(t *testing.T) {
 		if gen.Uniform(t, "few", 4) > 0 || ks.kind >= 3 {
 			nb = min(nb, 6)
 		}
+		if ks.kind == 4 {
+			nb = min(nb, 3)
+		}
 		nt := false
 		var shape strings.Builder
 		fmt.Fprintf(&shape, "s%d k%d p%d n%d", split, ks.kind, len(ks.prefix), g.cur.len())
@@ -561,7 +564,17 @@ func TestC10(t *testing.T) {
 			delRun, addCluster, adds, dels, upds := batchShape(before, g.b.ib)
 			lv := bt.TreeLevels()
 			var bt2 *btree.T
-			c.must(fmt.Sprintf("batch %d MergeAndSave", bi), func() { bt2 = bt.MergeAndSave(g.b.ib.Iter()) })
+			if e := catch(func() { bt2 = bt.MergeAndSave(g.b.ib.Iter()) }); e != nil {
+				if e == "btree treeNode too large (write)" && halfKnown {
+					// known finding: an oversize half of an earlier tree node split is rewritten; the case ends here
+					rec.Excluded("split-half-over-node-size")
+					rec.Known(eh.What)
+					rec.Label("mergeandsave_panics_on_oversize_tree_node")
+					fmt.Fprintf(&shape, "|treenode-too-large")
+					break
+				}
+				t.Fatalf("batch %d MergeAndSave (+%d =%d -%d, split %d): panic: %v", bi, adds, upds, dels, split, e)
+			}
 			if bt2.TreeLevels() > 8 && lv8Known {
 				// known finding: the iterator cannot walk such a tree; the case ends here
 				rec.Excluded("btree-more-than-8-levels")
@@ -678,7 +691,7 @@ func (s *leafSim) add(k string) (same, shortened, dataFull bool) {
 
 func (s *leafSim) fill() int { sz, _ := s.sizeWith(""); return sz }
 
-// genGrouped generates a sorted bulk load made of 2-6 groups of keys; the
+// genGrouped generates a sorted bulk load made of 2-5 groups of keys; the
 // keys of a group share a prefix of 100-4000 bytes, the groups share 0..p-1
 // leading bytes. A group ends at a generated position: after a uniform number
 // of keys, or 0-2 keys after the simulated leaf is full / within 10 % of the
@@ -686,7 +699,7 @@ func (s *leafSim) fill() int { sz, _ := s.sizeWith(""); return sz }
 // crit counts the keys that shorten the shared prefix of a leaf which already
 // holds more key data than fits a node without prefix compression.
 func genGrouped(t *rapid.T, ks *keyStyle, split int) (keys []string, crit int) {
-	ng := 2 + gen.Uniform(t, "ngroups", 5)
+	ng := 2 + gen.Uniform(t, "ngroups", 4)
 	plen := make([]int, ng)
 	div := make([]int, ng)
 	for i := range ng {
@@ -704,7 +717,7 @@ func genGrouped(t *rapid.T, ks *keyStyle, split int) (keys []string, crit int) {
 		// groups ascend: the byte at the divergence position is above the shared filler
 		prefix := strings.Repeat("c", d) + string(rune('d'+i)) + strings.Repeat(string(rune('m'+i)), plen[i]-d-1)
 		ks.groups = append(ks.groups, prefix)
-		maxn := max(3, min(300, 90000/plen[i]))
+		maxn := max(3, min(200, 40000/plen[i]))
 		mode := gen.Pick(t, "groupend", []string{"uniform", "uniform", "full", "nearfull", "datafull", "datafull"})
 		want := 1 + gen.Uniform(t, "groupsize", maxn)
 		extra := gen.Uniform(t, "groupextra", 3)
